@@ -41,6 +41,12 @@ def run(F, R):
     g2_retry(F, R)
     g3_wrapped(F, R)
     g6_generation_register(F, R)
+    # G8: the window the bounds refer to is the one the device offers first: the PCI capability scan keeps the first device-configuration
+    # capability (later ones do not replace it) - C11.W2 first-match
+    from . import C11 as _c11
+    _t = _c11.find_pci(F)
+    if _t[0]:
+        guard(R, 'G8', 'first-match', lambda: _c11.w2_scan(F, RuleProxy(R, {'W2': 'G8'}, only=lambda inst: inst.endswith(':first-match')), _t[0]))
 
 
 def g6_generation_register(F, R):
